@@ -2481,7 +2481,7 @@ func (db *DB) writeLTXFromDB(ctx context.Context, enc *ltx.Encoder, dbFile *os.F
 		db.Logger.Log(ctx, internal.LevelTrace, "encode page from database", "offset", offset, "pgno", pgno)
 
 		// Otherwise read directly from the database file.
-		if _, err := dbFile.ReadAt(data, offset); err != nil {
+		if err := readDBPage(dbFile, data, offset); err != nil {
 			return fmt.Errorf("read database page %d: %w", pgno, err)
 		}
 		if err := enc.EncodePage(ltx.PageHeader{Pgno: pgno}, data); err != nil {
@@ -2539,7 +2539,7 @@ func (db *DB) writeLTXFromWAL(ctx context.Context, enc *ltx.Encoder, walFile *os
 			offset := int64(pgno-1) * int64(db.pageSize)
 			db.Logger.Log(ctx, internal.LevelTrace, "encode page from database", "txid", enc.Header().MinTXID, "offset", offset, "pgno", pgno, "type", "walgrowth")
 
-			if _, err := db.f.ReadAt(data, offset); err != nil {
+			if err := readDBPage(db.f, data, offset); err != nil {
 				return fmt.Errorf("read database page %d: %w", pgno, err)
 			}
 		}
@@ -2549,6 +2549,20 @@ func (db *DB) writeLTXFromWAL(ctx context.Context, enc *ltx.Encoder, walFile *os
 		}
 	}
 	return nil
+}
+
+// readDBPage reads one page of the database file. A page inside the committed
+// size that lies beyond the end of the file and is not in the WAL was allocated
+// by a transaction but never written (SQLite does not write freelist leaf pages);
+// SQLite reads such a page as zeros, so it is replicated as zeros instead of
+// failing every sync until a checkpoint extends the file.
+func readDBPage(f *os.File, data []byte, offset int64) error {
+	n, err := f.ReadAt(data, offset)
+	if err != nil && (errors.Is(err, io.EOF) || errors.Is(err, io.ErrUnexpectedEOF)) {
+		clear(data[n:])
+		return nil
+	}
+	return err
 }
 
 // Checkpoint performs a checkpoint on the WAL file.
